@@ -328,6 +328,7 @@ class VolumeMesh(Mesh):
             for f in self.mesh.id_faces:
                 c = set(self.face_to_cells(f))
                 for e in self.face_to_edges(f):
+                    if e is None: continue # side of a face that is not in the edge list (incomplete edge list)
                     self._adjE2F[e].append(f)
                     self._adjE2C[e] |= c
             for e in self.mesh.id_edges:
